@@ -10,7 +10,10 @@ Design level : specs/ClosuresIdeal.tla is the property as a machine (create/drop
                ffi_prep_closure failure, bad user_data); TLC explores every history of 3 callbacks x 2 signatures over blocks of
                1, 2 and 3 slots (thorough: 4 callbacks) and checks the refinement, free /\\ live = {},
                no duplicates on the free list, every block inside the bytes mmap()ed for its chunk, LIFO
-               reuse; five broken variants must be rejected.
+               reuse; an invocation is also a two-step action (Begin / End with a stack of activations
+               holding their own reference to the info tuple), so that the callback that is running
+               can be dropped and its closure reused before it returns or raises (own error value, own
+               onerror handler); six broken variants must be rejected.
 Binding      : sessions (one fresh process each, the allocator is process-wide) of create / failing
                create (variadic signature; allocation failures injected into ffi.callback() with
                _testcapi.set_nomemory) / drop / call operations on real ffi.callback() objects with five signatures,
@@ -19,7 +22,11 @@ Binding      : sessions (one fresh process each, the allocator is process-wide) 
                code -> spec: random histories hovering around the real block boundaries (73, 219, 438,
                730, ... closures), bursts with thousands alive, one burst with 20 000 (thorough: 25 000
                and 40 000) alive that reaches more_core's 14th..17th chunk; sessions with reference
-               cycles freed by gc.collect().
+               cycles freed by gc.collect(); reentrant sessions (also walks of the in-flight graph): the
+               Python function of a callback, called through a non-owning function pointer (directly /
+               from C), drops callbacks - also itself -, creates new ones in the freed closure, calls
+               others (nested 3 deep) and then returns or raises; every callback has its own error
+               value and possibly its own onerror handler (events begin ... end).
                TLC validates every session against the ideal (verdicts) and runs the implementation
                model at the real sizes (taken from gcc) over the same operations; the predicted
                addresses must equal the real ones up to one page-aligned base per mmap()ed block
@@ -35,7 +42,9 @@ CONSTANTS Cbs = {%s}
   PageSize = %d
   SlotSize = 2
   Gap = 100
-  Sigs = {"i","d"}
+  Sigs = {%s}
+  OnErrs = {%s}
+  MaxDepth = %d
   Cap = 2
   Variant = "%s"
 VIEW View
@@ -48,7 +57,11 @@ INVARIANT DistinctLive
 INVARIANT FreeDisjointLive
 INVARIANT FreeNoDup
 INVARIANT BoundOwn
+INVARIANT FramesOwn
+INVARIANT OwnLive
 INVARIANT InsideMapping"""
+FLAT = ('"i","d"', "TRUE", 0)             # histories without invocations in flight (as before the 4th wave)
+INFLIGHT = ('"i"', "TRUE, FALSE", 2)      # 2 callbacks, with / without onerror, invocations nested 2 deep
 
 IMPL_CFG = """SPECIFICATION TSpec
 CONSTANTS Cbs = {0}
@@ -56,6 +69,8 @@ CONSTANTS Cbs = {0}
   SlotSize = %d
   Gap = %d
   Sigs = {"i"}
+  OnErrs = {TRUE}
+  MaxDepth = 0
   Cap = 0
   Variant = "faithful"
 CHECK_DEADLOCK FALSE
@@ -80,6 +95,11 @@ WORKER = os.path.join(core.VERIF, "harness", "life_cbworker.py")
 SIGKINDS = ["i", "d", "q", "h", "v"]
 
 CLAUSE = {"create": "a new callback got the address of another live callback",
+          "begin": "a call did not enter exactly the callback's own function with its own signature",
+          "end": "an invocation in flight (its callback possibly dropped / its closure reused meanwhile) did not come "
+                 "back with its own result: on return the function's value, on raise the callback's OWN error value "
+                 "through its OWN onerror handler",
+          "end-unnested": "harness: end of an invocation that is not the innermost one",
           "call": "a call did not run exactly the callback's own function with its own signature and result",
           "drop": "harness: drop of a callback that is not live"}
 
@@ -208,6 +228,61 @@ def gen_bigburst(rng, n, bounds):
     return ops
 
 
+ERRMODES = ["n", "e", "eo"]
+
+
+def gen_reentrant(rng, steps, peak):
+    """histories that are not flat: the Python function of a callback (called through a non-owning function
+    pointer, directly or from C) itself drops callbacks - also the one that is running -, creates new ones
+    (which reuse the closure just freed), calls others, and then returns or raises (its own error value /
+    its own onerror handler must be used).  Invocations nest up to 3 deep."""
+    ops, live, sig = [], [], {}
+    nextc = [1]
+
+    def create(out):
+        c = nextc[0]
+        nextc[0] += 1
+        sig[c] = rng.choice(SIGKINDS)
+        out.append(["create", c, sig[c], rng.choice(ERRMODES)])
+        live.append(c)
+
+    def drop(out, c):
+        live.remove(c)
+        out.append(["drop", c])
+
+    def body_call(out, c, depth):
+        inner = []
+        op = ["call", c, rng.choice(["raw", "rawC"]), call_args(rng, sig[c]), {"ops": inner, "raise": False}]
+        out.append(op)
+        for _ in range(rng.choice([0, 1, 2, 2, 3, 4, 6])):
+            r = rng.random()
+            if r < 0.30 and c in live:
+                drop(inner, c)                                  # the running callback drops itself
+            elif r < 0.55:
+                create(inner)
+            elif r < 0.65 and live:
+                drop(inner, rng.choice(live))
+            elif r < 0.80 and live and depth < 3:
+                body_call(inner, rng.choice(live), depth + 1)
+            elif live:
+                d = rng.choice(live)
+                inner.append(["call", d, rng.choice(["cdata", "C"]), call_args(rng, sig[d])])
+        op[4]["raise"] = rng.random() < 0.6
+
+    for _ in range(steps):
+        r = rng.random()
+        if not live or r < (0.30 if len(live) < peak else 0.05):
+            create(ops)
+        elif r < 0.40:
+            drop(ops, rng.choice(live))
+        elif r < 0.50:
+            c = rng.choice(live)
+            ops.append(["call", c, rng.choice(["cdata", "C"]), call_args(rng, sig[c])])
+        else:
+            body_call(ops, rng.choice(live), 1)
+    return ops
+
+
 def shard(ideal, k=64):
     """Split the ideal trace of a huge session into k traces by address (a callback's events go to the
     trace of its address modulo k).  Sound for the ideal: the only clause relating two callbacks is
@@ -223,7 +298,7 @@ def shard(ideal, k=64):
     return [p for p in parts if p[0]]
 
 
-def gen_from_graph(g, rng, npaths, cover):
+def gen_from_graph(g, rng, npaths, cover, base0=0):
     """spec -> code: paths of the explored graph of Closures.tla (3 callbacks, 2 signatures), each
     followed by dropping what it left alive; callback ids are made unique per path"""
     out = {}
@@ -262,14 +337,29 @@ def gen_from_graph(g, rng, npaths, cover):
             act, args, cur = rng.choice(es)
             p.append((act, args))
         paths.append(p)
-    chunks, ops, base = [], [], 0
+    chunks, ops, base = [], [], base0
     for p in paths:
         base += 10
         live = {}
+        top = ops              # operations go to the body of the innermost invocation in flight
+        open_ = []             # [(list the call was appended to, call operation)]
         for act, args in p:
+            ops = open_[-1][1][4]["ops"] if open_ else top
+            if act == "Begin":
+                c = base + args[0]
+                op = ["call", c, rng.choice(["raw", "rawC"]), call_args(rng, live[c]), {"ops": [], "raise": False}]
+                ops.append(op)
+                open_.append((ops, op))
+                continue
+            if act == "End":
+                open_.pop()[1][4]["raise"] = args[0] == "raise"
+                continue
             if act == "Create":
                 c, s = base + args[0], args[1]
-                ops.append(["create", c, s])
+                if len(args) > 2:
+                    ops.append(["create", c, s, "eo" if args[2] in (True, "TRUE") else rng.choice(["n", "e"])])
+                else:
+                    ops.append(["create", c, s])
                 live[c] = s
             elif act == "CreateFail":
                 # the model's failure exits; "gcnew" is an allocation failure injected into ffi.callback()
@@ -279,15 +369,18 @@ def gen_from_graph(g, rng, npaths, cover):
                     ops.append(["createfail"])
             elif act == "Drop":
                 ops.append(["drop", base + args[0]])
-                del live[base + args[0]]
+                live.pop(base + args[0])
             elif act == "Call":
                 c = base + args[0]
                 ops.append(["call", c, rng.choice(["cdata", "C"]), call_args(rng, live[c])])
             else:
                 raise core.MachineryError("unknown action %s in the Closures graph" % act)
+        for _ls, op in open_:           # invocations the path left in flight come back
+            op[4]["raise"] = rng.random() < 0.5
+        ops = top
         for c in sorted(live, reverse=rng.random() < 0.5):
             ops.append(["drop", c])
-        if len(ops) >= 15000:           # one session (process) per 15 000 operations
+        if len(ops) >= 4000:            # one session (process) per 4 000 top-level operations
             chunks.append(ops)
             ops = []
     if ops:
@@ -310,7 +403,7 @@ def run_session(cfg, ops, careful=False):
             at = m["at"]
         else:
             events.append(m)
-    ended = bool(events) and events[-1].get("ev") == "end"
+    ended = bool(events) and events[-1].get("ev") == "end-of-session"
     if ended:
         events.pop()
         return events, None
@@ -331,7 +424,8 @@ def to_traces(events):
         n0 = len(ideal)
         if ev == "create":
             a = aid.setdefault(e["addr"], len(aid) + 1)
-            ideal.append({"ev": "create", "c": e["c"], "a": a})
+            ideal.append({"ev": "create", "c": e["c"], "a": a, "errv": e.get("errv", ["none", 0]),
+                          "oe": bool(e.get("oe", False))})
             impl.append({"ev": "create"})
             addrs.append(e["addr"])
             created[e["c"]] = len(addrs)
@@ -346,6 +440,10 @@ def to_traces(events):
         elif ev == "call":
             ideal.append({"ev": "call", "c": e["c"], "ran": e["ran"], "sent": e["sent"], "recv": e["recv"],
                           "ret": e["ret"], "exp": e["exp"]})
+        elif ev == "begin":
+            ideal.append({"ev": "begin", "c": e["c"], "ran": e["ran"], "sent": e["sent"], "recv": e["recv"]})
+        elif ev == "end":
+            ideal.append({"ev": "end", "c": e["c"], "how": e["how"], "herr": e["herr"], "ret": e["ret"], "exp": e["exp"]})
         elif ev in ("reject", "dropcyc", "skipped"):
             pass
         else:
@@ -395,6 +493,28 @@ def fit(pred, addrs, page):
     return None
 
 
+def dropped_running(events):
+    """number of invocations whose callback was dropped, and a callback created at its address, while it ran
+    and which then raised"""
+    n, stack, addr = 0, [], {}
+    for e in events:
+        if e["ev"] == "create":
+            addr[e["c"]] = e["addr"]
+            for f in stack:
+                if f[1] and f[2] == e["addr"]:
+                    f[3] = True
+        elif e["ev"] == "begin":
+            stack.append([e["c"], False, addr.get(e["c"]), False])
+        elif e["ev"] == "drop":
+            for f in stack:
+                if f[0] == e["c"]:
+                    f[1] = True
+        elif e["ev"] == "end" and stack:
+            f = stack.pop()
+            n += 1 if f[3] and e["how"] == "raise" else 0
+    return n
+
+
 def violation_key(e, verdict):
     if verdict == "create":
         return "create:duplicate-address"
@@ -406,39 +526,67 @@ def violation_key(e, verdict):
         else:
             what = "wrong-result"
         return "call:%s:%s:%s" % (e["via"], e["s"], what)
+    if verdict == "begin":
+        return "call:%s:%s:inflight:%s" % (e["via"], e["s"], "wrong-function" if e["ran"] != [e["c"]] else "wrong-arguments")
+    if verdict == "end":
+        if e["how"] == "return":
+            what = "wrong-result" if e["ret"] != e["exp"] or e["herr"] else "unclassified"
+            if e["herr"]:
+                what = "onerror-ran-without-error"
+        else:
+            what = "foreign-or-missing-onerror" if (e["herr"] and e["herr"] != [e["c"]]) else "not-own-error-binding"
+        return "call:%s:%s:inflight-%s:%s" % (e["via"], e["s"], e["how"], what)
     raise core.MachineryError("C29 harness produced a history outside the domain of the ideal: %s %r" % (verdict, e))
 
 
 def design_level(ctx, quick):
     dump = os.path.join(ctx.tmp, "closures")
+    dump2 = os.path.join(ctx.tmp, "closures_inflight")
     def mc():
-        r = core.tlc("Closures", cfg_text=MC % ("1,2,3", 2, "faithful", FULL), dump=dump, workers=4, timeout=3000)
+        r = core.tlc("Closures", cfg_text=MC % (("1,2,3", 2) + FLAT + ("faithful", FULL)), dump=dump, workers=4, timeout=3000)
         ctx.add_tlc("MC_Closures(3cbs,2sigs,blocks 1/2/3)", r)
 
+    def mcfl():
+        r = core.tlc("Closures", cfg_text=MC % (("1,2", 2) + INFLIGHT + ("faithful", FULL)), dump=dump2, workers=4,
+                     timeout=3000)
+        ctx.add_tlc("MC_Closures(in flight: 2cbs, onerror yes/no, nesting 2, blocks 1/2)", r)
+
+    def mcfl3():
+        r = core.tlc("Closures", cfg_text=MC % ("1,2,3", 2, '"i","d"', "TRUE, FALSE", 1, "faithful", FULL), workers=6,
+                     timeout=3000)
+        ctx.add_tlc("MC_Closures(in flight: 3cbs, 2sigs, onerror yes/no, nesting 1, blocks 1/2/3)", r)
+
     def mc4():
-        r = core.tlc("Closures", cfg_text=MC % ("1,2,3,4", 3, "faithful", FULL), workers=6, timeout=2400)
+        r = core.tlc("Closures", cfg_text=MC % (("1,2,3,4", 3) + FLAT + ("faithful", FULL)), workers=6, timeout=2400)
         ctx.add_tlc("MC_Closures(4cbs,2sigs,blocks 1/3/4)", r)
 
     def variant(v):
-        r = core.tlc("Closures", cfg_text=MC % ("1,2,3", 2, v, "INVARIANT InsideMapping" if v == "cap-after-count" else ""),
+        dims = INFLIGHT if v == "borrowed-info" else FLAT
+        r = core.tlc("Closures", cfg_text=MC % (("1,2" if v == "borrowed-info" else "1,2,3", 2) + dims + (
+                         v, "INVARIANT InsideMapping" if v == "cap-after-count" else "")),
                      workers=2, timeout=3000)
         ctx.add_tlc("sanity:" + v, r, require_ok=False, count_states=False)
         if r.ok or "is violated" not in r.out:
             raise core.MachineryError("broken variant %s of Closures was not rejected by TLC:\n%s" % (v, r.out[-1500:]))
-    jobs = {"mc": (mc, ())}
+    jobs = {"mc": (mc, ()), "mcfl": (mcfl, ())}
     if not quick:
         jobs["mc4"] = (mc4, ())
-    for v in ("nopop", "doublefree", "doublefree-on-oom", "stalebind", "cap-after-count"):
+        jobs["mcfl3"] = (mcfl3, ())
+    for v in ("nopop", "doublefree", "doublefree-on-oom", "stalebind", "cap-after-count", "borrowed-info"):
         jobs[v] = (variant, (v,))
     life_common.parallel(jobs)
     g = tlaval.load_dot(dump + ".dot", parse=False)
+    g2 = tlaval.load_dot(dump2 + ".dot", parse=False)
     acts = {e[0] for es in g.out.values() for e in es}
-    missing = {"Create", "CreateFail", "Drop", "Call"} - acts
+    acts2 = {e[0] for es in g2.out.values() for e in es}
+    missing = ({"Create", "CreateFail", "Drop", "Call"} - acts) | ({"Create", "Drop", "Call", "Begin", "End"} - acts2)
     if missing:
         raise core.MachineryError("Closures: actions never taken: %s" % sorted(missing))
     for a in sorted(acts):
         ctx.cov["actions"]["Closures." + a] = sum(1 for es in g.out.values() for e in es if e[0] == a)
-    return g
+    for a in sorted(acts2):
+        ctx.cov["actions"]["Closures(in flight)." + a] = sum(1 for es in g2.out.values() for e in es if e[0] == a)
+    return g, g2
 
 
 def run(ctx):
@@ -454,7 +602,7 @@ def run(ctx):
                                                 flags=["-I/usr/include/ffi", "-I/usr/include/libffi"]).split()]
     cfg = {"helper": helper}
     phase("build")
-    g = design_level(ctx, quick)
+    g, g2 = design_level(ctx, quick)
     phase("tlc-design")
     rng = ctx.rng
     peak = 1300 if quick else 4000
@@ -463,6 +611,11 @@ def run(ctx):
     gops, npaths, nedges = gen_from_graph(g, rng, 150 if quick else 1500, 600 if quick else None)
     for ch in gops:
         sessions.append(("model-paths", ch, True))
+    gops2, npaths2, nedges2 = gen_from_graph(g2, rng, 150 if quick else 1500, 600 if quick else None, base0=10 ** 6)
+    for ch in gops2:
+        sessions.append(("model-paths-in-flight", ch, True))
+    for i in range(2 if quick else 8):
+        sessions.append(("reentrant", gen_reentrant(rng, 1200 if quick else 6000, rng.choice([6, 20, 80])), True))
     for i in range(3 if quick else 10):
         sessions.append(("random", gen_random(rng, 2500 if quick else 12000, rng.choice([80, 240, 460, 800]),
                                               bounds, False), True))
@@ -473,7 +626,8 @@ def run(ctx):
     for i in range(2 if quick else 6):
         sessions.append(("random-with-gc-cycles", gen_random(rng, 1500 if quick else 8000, rng.choice([80, 240, 460]),
                                                              bounds, True), False))
-    ctx.cov["graph"] = {"transitions": nedges, "paths_replayed": npaths}
+    ctx.cov["graph"] = {"transitions": nedges, "paths_replayed": npaths,
+                        "in_flight_transitions": nedges2, "in_flight_paths_replayed": npaths2}
     phase("generate")
     res = life_common.run_limited({i: (run_session, (cfg, s[1])) for i, s in enumerate(sessions)}, 8)
     phase("execute")
@@ -552,6 +706,15 @@ def run(ctx):
     if (not ctx.cov["allocation_failures_injected"]["MemoryError in ffi.callback()"]
             and not any(e["ev"] == "skipped" and "set_nomemory" in e.get("what", "") for e in allev)):
         raise core.MachineryError("no allocation failure could be injected into ffi.callback()")
+    inflight = [e for e in allev if e["ev"] == "end"]
+    ctx.cov["invocations_in_flight"] = {
+        "observed": len(inflight), "raised": sum(1 for e in inflight if e["how"] == "raise"),
+        "own_onerror_ran": sum(1 for e in inflight if e["herr"]),
+        "callback_dropped_while_running": sum(1 for i in range(len(sessions)) for n in [dropped_running(res[i][0])]
+                                              for _ in range(n))}
+    if not ctx.cov["invocations_in_flight"]["callback_dropped_while_running"] or not ctx.cov[
+            "invocations_in_flight"]["own_onerror_ran"]:
+        raise core.MachineryError("no callback was dropped while it ran / no onerror handler ran")
     ctx.cov["max_live_callbacks"] = maxlive
     ctx.cov["address_reuses"] = reused
     ctx.cov["closure_size"], ctx.cov["page_size"] = slot, page
@@ -607,6 +770,20 @@ def selftest(ctx):
             break
     bad = validate_ideal(ctx, [a, b])
     ok = ok and bad.get(0, ("",))[0] == "create" and bad.get(1, ("",))[0] == "call"
+    # invocations in flight: a recorded reentrant session is accepted; giving a raising invocation another
+    # callback's error value / another callback's onerror handler is rejected at that 'end' event
+    events2, death2 = run_session({"helper": helper}, gen_reentrant(ctx.rng, 300, 6))
+    ideal2 = to_traces(events2)[0]
+    ok = ok and not death2 and not validate_ideal(ctx, [ideal2])
+    c1, c2 = json.loads(json.dumps(ideal2)), json.loads(json.dumps(ideal2))
+    e1 = next((e for e in c1 if e["ev"] == "end" and e["how"] == "raise"), None)
+    e2 = next((e for e in c2 if e["ev"] == "end" and e["how"] == "raise" and e["herr"]), None)
+    ok = ok and e1 is not None and e2 is not None
+    if ok:
+        e1["ret"] = ["i", 12345]
+        e2["herr"] = [e2["c"] + 1]
+        bad2 = validate_ideal(ctx, [c1, c2])
+        ok = (bad2.get(0, ("", 0)) == ("end", c1.index(e1) + 1) and bad2.get(1, ("", 0)) == ("end", c2.index(e2) + 1))
     ad2 = list(ad)
     ad2[len(ad2) // 2] += slot
     ok = ok and fit(predict(ctx, [impl], page, slot)[0], ad2, page) is not None
@@ -619,10 +796,13 @@ META = {
             "(thorough: 4 callbacks) in a transcription of malloc_closure.h (more_core growth rule, linked free "
             "list) and of its use by b_callback / cdataowninggc_dealloc / invoke_callback, over blocks of 1, 2 and "
             "3 closures, and checks that it refines the property machine (distinct live addresses, a call runs "
-            "its own function with its own signature) plus free/live disjointness and LIFO reuse; sessions of "
+            "its own function with its own signature; an invocation in flight - its callback possibly dropped and "
+            "its closure reused meanwhile - returns its function's value or, when it raises, the callback's own "
+            "error value through its own onerror handler) plus free/live disjointness and LIFO reuse; sessions of "
             "thousands of operations on real ffi.callback() objects with five signatures (walks covering the "
             "explored graph, random histories around the real block boundaries, bursts with thousands alive, "
-            "cycles freed by gc) are called through the cdata and from C, and TLC validates every event "
+            "cycles freed by gc, reentrant histories in which the running callback drops itself, creates, calls "
+            "and raises) are called through the cdata, from C and through non-owning pointers, and TLC validates every event "
             "against the property machine and predicts every closure address with the model at the real "
             "sizes.",
     "note": "Trusted: TLC, libffi, CPython reference counting (a dropped callback is freed at once). The real "
